@@ -26,6 +26,14 @@ def prebuild():
     mpmon.exe()
 
 
+def has_nan(o):
+    if isinstance(o, dict):
+        return any(has_nan(v) for v in o.values())
+    if isinstance(o, (list, tuple)):
+        return any(has_nan(v) for v in o)
+    return o == 'nan' or (isinstance(o, float) and o != o)
+
+
 def pick_acc(rng, which):
     lin = {t: 2 for t in SIMPLE}
     if which == 0:
@@ -152,6 +160,9 @@ def main(tier, seed):
                         res.append(('refusal-with-success-code', 'code %s message %s' % (code, sol['message'][:120])))
                 out.append((k, res, info)); continue
             info['types'] = sorted(set(c['type'] for c in tr.cons))
+            if has_nan([tr.lb, tr.ub, [c['data'] for c in tr.cons], tr.objs]):
+                res.append(('delivered-model-contains-NaN', 'a bound, coefficient or parameter of the delivered model is NaN (config %s %s)' % (CFGNAMES[which], opts)))
+                out.append((k, res, info)); continue
             try:
                 enc = flat_z3.Enc(tr)
             except flat_z3.Unsupported as ex:
